@@ -320,6 +320,9 @@ def exhaustive_cases(tier, seed):
             kind = ("client", "pooled", "hash")[(sum(seq) + n) % 3]
             yield {"kind": kind, "cfg": cfgs[(sum(seq) // 3) % 2], "steps": [ALPHA[i] for i in seq]}
     if tier == "thorough":
+        # every sequence of length 4 over the full 25-instance alphabet (390 625)
+        for seq in itertools.product(range(len(ALPHA)), repeat=4):
+            yield {"kind": ("client", "pooled", "hash")[sum(seq) % 3], "cfg": cfgs[(sum(seq) // 5) % 2], "steps": [ALPHA[i] for i in seq]}
         for seq in itertools.product(range(len(ALPHA16)), repeat=4):
             yield {"kind": ("client", "pooled", "hash")[sum(seq) % 3], "cfg": {"key_prefix": b"p/", "default_noreply": False},
                    "steps": [ALPHA16[i] for i in seq]}
@@ -380,7 +383,7 @@ def _drop_none_noreply(case):
 PARTS = [
     Part("exhaustive-short", "enum", check, cases=exhaustive_cases, exhaustive=True, minimise=minimise),
     Part("random-histories", "hyp", check, strategy=lambda tier: history_strategy(tier).map(_drop_none_noreply),
-         examples={"quick": 500, "thorough": 3000}, shards={"quick": 6, "thorough": 16}),
+         examples={"quick": 500, "thorough": 15000}, shards={"quick": 6, "thorough": 16}),
 ]
 
 
